@@ -171,7 +171,7 @@ def abs (c : Cfg) (r : Nat) : Stmt → A → A
   | .nthIdx, a => { a with pk := true, cv := true }
   | .ifCur ks t e, a => (abs c r t (if a.cv && !ks.contains T_Eof then a.top else a)).meet (abs c r e a)
   | .ifRet t e, a => (abs c r t (if a.nr then a.top else a)).meet (abs c r e a)
-  | .setRet b, a => { a with nr := !b }
+  | .setRet b, a => if a.pr then a else { a with nr := !b }
   | .setIdx _, a => a
   | .incIdx, a => a
   | .decIdx, a => a
@@ -239,6 +239,7 @@ theorem abs_ok_mono (c : Cfg) (r : Nat) : ∀ (st : Stmt) (a : A), (abs c r st a
   | adv => intro a h; simp only [abs, A.advd] at h; split at h <;> simpa [A.top] using h
   | advErr m => intro a h; simp only [abs, A.advd] at h; split at h <;> simpa [A.top] using h
   | advErrDbg m => intro a h; simp only [abs, A.advd] at h; split at h <;> simpa [A.top] using h
+  | setRet b => intro a h; simp only [abs] at h; split at h <;> simpa using h
   | _ => intro a h; simpa [abs] using h
 
 /-! ### soundness -/
@@ -539,10 +540,11 @@ theorem sound (hm : ∀ g s, mu (callF g s) ≤ mu s) (hc : HC c r s0 callF) :
       exact ⟨G_weaken this.1 (le_meet_right _ _), this.2⟩
   | setRet b =>
     intro a s hle hp hf ho _
-    refine ⟨⟨hle, Or.inr ⟨hp, hf.1, hf.2.1, ?_, hf.2.2.2⟩⟩, ho⟩
+    simp only [abs, hp, Bool.false_eq_true, if_false]
+    refine ⟨⟨hle, Or.inr ⟨rfl, hf.1, hf.2.1, ?_, hf.2.2.2⟩⟩, ho⟩
     intro h; cases b
     · rfl
-    · simp [abs] at h
+    · simp at h
   | setIdx n => intro a s hle hp hf ho _; exact ⟨⟨hle, Or.inr ⟨hp, hf⟩⟩, ho⟩
   | incIdx => intro a s hle hp hf ho _; exact ⟨⟨hle, Or.inr ⟨hp, hf⟩⟩, ho⟩
   | decIdx => intro a s hle hp hf ho _; exact ⟨⟨hle, Or.inr ⟨hp, hf⟩⟩, ho⟩
